@@ -240,10 +240,23 @@ def gd7(facts, rep):
         rep.analysed_body(sg)
         gs = [x for x in eng_gd.guards(sg) if x['cmp_true'] and x['cmp_true'][0] == 'Lt' and 'len(' in x['cmp_true'][2]]
         key = SI + '::get|in-range-guard'
-        if gs:
-            rep.ok(rule, key, sg.loc(gs[0]['bb']), gs[0]['text'])
+        fam = facts.family(sg)
+        unchecked = [(c, bb) for c in fam for bb, t in c.calls() if call_info(t) and
+                     call_info(t)['fn'].endswith(('ops::Index::index', 'ops::IndexMut::index_mut')) and
+                     'smallints' in fmt(strip(c.expr_operand(t['args'][0], inline_user=True)))]
+        checked = [(c, bb) for c in fam for bb, t in c.calls() if call_info(t) and
+                   call_info(t)['fn'].rsplit('::', 1)[-1] in ('get', 'get_mut') and 'slice' in call_info(t)['fn'] + (call_info(t).get('res') or '')]
+        if unchecked:
+            # an indexing access must sit behind i < len
+            okg = bool(gs) and all(c is sg and sg.edge_dominates((gs[0]['bb'], gs[0]['t']), bb) for c, bb in unchecked)
+            if okg:
+                rep.ok(rule, key, sg.loc(gs[0]['bb']), gs[0]['text'])
+            else:
+                rep.bad(rule, key, '%s:%s' % (sg.file, sg.line), 'no `i < self.smallints.len()` guard')
+        elif checked:
+            rep.ok(rule, key, '%s:%s' % (sg.file, sg.line), 'storage is read through the checked slice::get only (None when out of range)')
         else:
-            rep.bad(rule, key, '%s:%s' % (sg.file, sg.line), 'no `i < self.smallints.len()` guard')
+            rep.missing(rule, key, 'no access to the storage vector found')
 
 
 def mk1(facts, rep):
